@@ -1260,10 +1260,16 @@ func (e *vRealEnv) oneDial(q vRealReq, network, addr string, tag uint32) (o vDia
 				o.creg = true
 			}
 		}
-		if q.class == "reset" && !o.creg && !c.IsActive() {
-			// the peer's RST has already been dispatched to this connection by its poller (which detached it):
-			// it was registered when the dial returned
-			o.creg = true
+		if q.class == "reset" && !o.creg {
+			// The peer's RST may already have been dispatched to this connection: the poller detaches the operator
+			// first and runs OnHup (which makes the connection inactive) from another goroutine a moment later.
+			// A connection the poller hangs up was registered when the dial returned.
+			for w := 0; w < 2000 && c.IsActive(); w++ {
+				time.Sleep(5 * time.Millisecond)
+			}
+			if !c.IsActive() {
+				o.creg = true
+			}
 		}
 		if q.class == "accept" || q.class == "unix-ok" {
 			// usable in both directions: echo round trip
